@@ -58,6 +58,12 @@ example : ¬ Admissible mbias.edges 0 1 [4] := fun h =>
   absurd ((check_iff_admissible mbias (by decide) 0 1 [4]).mpr h) (by decide)
 example : Admissible mbias.edges 0 1 [4, 3] := (check_iff_admissible mbias (by decide) 0 1 [4, 3]).mp (by decide)
 
+/-- bounded supplement, kernel-checked only on this tiny instance (all 8 candidate sets of the M-bias graph): the
+    modelled check (moral-graph criterion) agrees with path-blocking d-separation `backdoorPaths`.  The exhaustive
+    comparison on all DAGs with ≤ 4/5 nodes is done by compiled evaluation in the driver (a test, not a proof). -/
+example : (allSubsets (cands mbias 0 1)).all (fun Z => check mbias 0 1 Z == backdoorPaths mbias 0 1 Z) = true := by
+  decide
+
 /-- the verdict does not depend on the order in which nodes and arrows were inserted, nor on the order in which
     the candidate set is written (this failed for the moralisation loop before /repo commit b89edca) -/
 theorem check_order_independent (G G' : Graph) (hwf : G.WF) (hwf' : G'.WF) (x y : Nat) (Z Z' : List Nat)
